@@ -799,7 +799,7 @@ int64_t StructOperations::get_struct_member_multidim_array_element(
                 "Array is 1-dimensional but multiple indices provided");
         }
         return get_struct_member_array_element(var_name, member_name,
-                                               static_cast<int>(indices[0]));
+                                               Variable::index_to_int(indices[0]));
     }
 }
 
